@@ -62,6 +62,9 @@ def r_C17eval(root):
     k, b1 = call(repo, "load_model", mm.sample, "/m/b.mdl", False, add_to_local_models=False, model_params={})
     allm = table(repo.get(".all_models")); loc = table(repo.get(".local_models"))
     rep("C17.m", "add_to_local_models=False keeps the model out of the local table", k == "ret" and allm is not None and allm.get("/m/b.mdl") is b1 and "/m/b.mdl" not in (loc or {}), "a model loaded with add_to_local_models=False is in all_models: %s, in local_models: %s (documented: cached, but not visible to the importing model's unqualified lookups)" % ("/m/b.mdl" in (allm or {}), "/m/b.mdl" in (loc or {})), witness="import 'b' as name")
+    k, b1b = call(repo, "load_model", mm.sample, "/m/b.mdl", False, add_to_local_models=False, model_params={})
+    loc = table(repo.get(".local_models"))
+    rep("C17.m", "a cached file asked for again with add_to_local_models=False stays invisible", k == "ret" and b1b is b1 and "/m/b.mdl" not in (loc or {}) and mm.loads == ["/m/a.mdl", "/m/b.mdl"], "asking again with add_to_local_models=False for /m/b.mdl, which is cached but not visible, %s; local_models %s it afterwards (documented: the cached model is returned and stays out of the importing model's visible models - e.g. a file imported under an alias only)" % ("returns the cached model" if k == "ret" and b1b is b1 else ("returns another object" if k == "ret" else "raises " + str(b1b)), "contains" if "/m/b.mdl" in (loc or {}) else "does not contain"), witness="import \"lib\" as l  in two files of one load: names of lib must stay reachable through the alias only")
     k, b2 = call(repo, "load_model", mm.sample, "/m/b.mdl", False, add_to_local_models=True, model_params={})
     loc = table(repo.get(".local_models"))
     rep("C17.m", "a later visible import of the cached file makes it visible", k == "ret" and b2 is b1 and (loc or {}).get("/m/b.mdl") is b1 and mm.loads == ["/m/a.mdl", "/m/b.mdl"], "importing /m/b.mdl visibly after it was cached %s" % ("returns another object or loads it again (%s)" % mm.loads if k == "ret" else "raises " + str(b2)))
